@@ -23,7 +23,7 @@
     value (a DAG); the decoder ignores the ids — size.Of is a tree sum over the
     unfolding (Properties/C20.v, theorems C20_graph_...). *)
 From Coq Require Import ZArith List Bool String.
-From Low Require Import Lib.Val Model.Size Spec.SizeSpec Model.SizeFmt Model.SizeStat Spec.SizeStatSpec Model.TypeHelper Spec.TypeHelperSpec.
+From Low Require Import Lib.Val Model.Size Spec.SizeSpec Model.SizeFmt Model.SizeStat Spec.SizeStatSpec Model.TypeHelper Spec.TypeHelperSpec Model.SizeGraph Spec.SizeGraphSpec.
 Import ListNotations.
 Open Scope string_scope.
 Open Scope Z_scope.
@@ -282,6 +282,88 @@ Definition slots_val (rst : list (option val)) : val :=
   VL [VZ 23; VL [VZ 20; VZ 0]; VZ 0;
       VL (map (fun o => match o with Some b => b | None => VL [VZ 20; VZ 0; VL []] end) rst)].
 
+(** ---- values with references into a heap (size.Of/heap):  [26, T, a] is a non-nil pointer
+    (of type *T) to heap cell a; everything else as in [dec] *)
+Definition dec_opt_g (f : val -> option gvalue) (l : list val) : option (option gvalue) :=
+  match l with
+  | [] => Some None
+  | [x] => match f x with Some v => Some (Some v) | None => None end
+  | _ => None
+  end.
+
+Fixpoint dec_g (v : val) : option gvalue :=
+  match v with
+  | VL (VZ k :: rest) =>
+      if k =? 24 then
+        match rest with
+        | [VL bs] => match opt_all (map as_z bs) with Some bs => Some (GString bs) | None => None end
+        | _ => None
+        end
+      else if k =? 23 then
+        match rest with
+        | [_; VZ nf; VL elems] | [_; VZ nf; VL elems; VZ _] =>
+            match opt_all (map dec_g elems) with
+            | Some l => if nf =? 0 then Some (GSlice (Some l))
+                        else match l with [] => Some (GSlice None) | _ => None end
+            | None => None
+            end
+        | _ => None
+        end
+      else if k =? 17 then
+        match rest with
+        | [_; VL elems] =>
+            match opt_all (map dec_g elems) with Some l => Some (GArray l) | None => None end
+        | _ => None
+        end
+      else if k =? 21 then
+        match rest with
+        | [_; _; VZ nf; VL pairs] | [_; _; VZ nf; VL pairs; VZ _] =>
+            match opt_all (map (fun p => match p with
+                                         | VL [a; b] => match dec_g a, dec_g b with
+                                                        | Some a, Some b => Some (a, b)
+                                                        | _, _ => None
+                                                        end
+                                         | _ => None
+                                         end) pairs) with
+            | Some l => if nf =? 0 then Some (GMap l)
+                        else match l with [] => Some (GMap []) | _ => None end
+            | None => None
+            end
+        | _ => None
+        end
+      else if k =? 22 then
+        match rest with
+        | [_; VL o] | [_; VL o; VZ _] => match dec_opt_g dec_g o with Some o => Some (GPtr o) | None => None end
+        | _ => None
+        end
+      else if k =? 20 then
+        match rest with
+        | [_; VL o] => match dec_opt_g dec_g o with Some o => Some (GIface o) | None => None end
+        | _ => None
+        end
+      else if k =? 26 then
+        match rest with
+        | [_; VZ a] => if a <? 0 then None else Some (GRef (Z.to_nat a))
+        | _ => None
+        end
+      else if k =? 25 then
+        match rest with
+        | [VL fs] => match opt_all (map dec_g fs) with Some l => Some (GStruct l) | None => None end
+        | _ => None
+        end
+      else
+        match rest with
+        | [VZ _] => match skind_of k with Some s => Some (GScalar s) | None => None end
+        | _ => None
+        end
+  | _ => None
+  end.
+
+
+(** a heap cell: [T, value] (T: its Go type, ignored here) *)
+Definition dec_cell (c : val) : option gvalue :=
+  match c with VL [_; v] => dec_g v | _ => None end.
+
 Definition ops_C20 : list opdef := [
   (* size.Of(v): the number, P for a panic *)
   {| op_name := "size.Of";
@@ -376,5 +458,28 @@ Definition ops_C20 : list opdef := [
                             | ArgSlice l => VZ (spec_ToSlice_size l)
                             | ArgOther => VPanic end
                 | None => VBad end
+       | _ => VBad end) |}
+;
+  (* size.Of of a value that shares pointers: args = [[[T_0, cell_0], ..., [T_n-1, cell_n-1]], root]; cell a may refer
+     to cells below a only (an ordered, hence acyclic, heap).  Model: gsizeof on the heap;
+     property: the structural sum of the tree unfolding *)
+  {| op_name := "size.Of/heap";
+     op_run := fun a => match a with
+       | [VL cells; root] =>
+           match opt_all (map dec_cell cells), dec_g root with
+           | Some h, Some v =>
+               if ordered h && refs_below (List.length h) v
+               then match gsizeof h (enough_fuel h v) v with Some n => VZ n | None => VPanic end
+               else VBad
+           | _, _ => VBad end
+       | _ => VBad end;
+     op_spec := fun_spec (fun a => match a with
+       | [VL cells; root] =>
+           match opt_all (map dec_cell cells), dec_g root with
+           | Some h, Some v =>
+               match unfold h (enough_fuel h v) v with
+               | Some t => if supportedb t then VZ (spec_size t) else VBad
+               | None => VBad end
+           | _, _ => VBad end
        | _ => VBad end) |}
 ].
